@@ -25,7 +25,7 @@ func init() { core.Register(prop{}) }
 func (prop) ID() string    { return "C17" }
 func (prop) Level() string { return "exploration" }
 func (prop) Rule() string {
-	return "decoder: every operation sequence up to the tier's length over {Byte,Int16,Int32,Uint32,PeekByte,PeekInt16,Data,Copy(n),Seek(n), n=-3..8} on every buffer (lengths 0..6 x 8 contents from boundary bytes), each under its own recover, compared step by step with a cursor model (return value, Available, error flag); longer sequences/buffers seeded. IPP: generated requests (5 operations, 1..3 groups, 0..6 attributes over every supported value tag, 1..3 values, strings 0..300, document 0..64 KiB) posted through the real dispatcher; reply and event compared with an independent encoder. Non-trivial = a sequence in which >=1 operation consumed or returned data / an IPP request that was answered; distinct by (buffer, sequence) / request bytes. IPP requests are also delivered in two segments with another client's complete print job served in between (ipp-overlapped). Every second request of ipp-overlapped is sent by a slow receiver (48-byte window) and another client's exchange is served while its reply is on the way."
+	return "decoder: every operation sequence up to the tier's length over {Byte,Int16,Int32,Uint32,PeekByte,PeekInt16,Data,Copy(n),Seek(n), n=-3..8} on every buffer (lengths 0..6 x 8 contents from boundary bytes), each under its own recover, compared step by step with a cursor model (return value, Available, error flag); longer sequences/buffers seeded. IPP: generated requests (5 operations, 1..3 groups, 0..6 attributes over every supported value tag, 1..3 values, strings 0..300, document 0..64 KiB) posted through the real dispatcher; reply and event compared with an independent encoder. Non-trivial = a sequence in which >=1 operation consumed or returned data / an IPP request that was answered; distinct by (buffer, sequence) / request bytes. IPP requests are also delivered in two segments with another client's complete print job served in between (ipp-overlapped). Every second request of ipp-overlapped is sent by a slow receiver (48-byte window) and another client's exchange is served while its reply is on the way. Every fifth ipp request is sent by a client that closes the connection without reading the reply; its event must be there all the same."
 }
 func (prop) Assumptions() []string {
 	return []string{"negative sizes count as 'does not fit'", "Seek with a negative argument inside the buffer is the legitimate rewind the IPP code relies on", "out-of-bounds access is detected by Go's bounds checks on a buffer whose capacity equals its length"}
@@ -320,6 +320,9 @@ type ippObs struct {
 	Job      string `json:"job"`
 	DataHex  string `json:"data_hex"`
 	Fatal    string `json:"fatal,omitempty"`
+	// HangUp: the client sent its request and closed the connection without reading the reply (fire-and-forget
+	// printing); the request was received whole and must be reported all the same
+	HangUp bool `json:"hang_up,omitempty"`
 }
 
 func childIPP(b core.Batch, p params, o *core.Obs) {
@@ -369,13 +372,23 @@ services=["ipp"]
 			oc.Close()
 			req = req[cut:]
 		}
+		if !p.Overlap && k%5 == 4 {
+			// fire and forget: the whole request, then the client is gone before any reply
+			ob.HangUp = true
+			if _, err := cc.Write(req); err != nil {
+				ob.Err = "write: " + err.Error()
+			}
+			cc.Close()
+			req = nil
+		}
 		replyOverlap := p.Overlap && k%2 == 1
 		if replyOverlap {
 			// a slow receiver: the service can hand over 48 bytes of its reply at a time; while it is in the middle
 			// of it another client's complete exchange is served
 			cc.SetWindow(48)
 		}
-		if _, err := cc.Write(req); err != nil {
+		if ob.HangUp {
+		} else if _, err := cc.Write(req); err != nil {
 			ob.Err = "write: " + err.Error()
 		} else {
 			if replyOverlap {
@@ -542,6 +555,22 @@ func (prop) Judge(b core.Batch, recs []core.Rec, exits []core.Exit) []core.Resul
 				res.Sample = map[string]interface{}{"mode": "ipp", "operation": q.Op, "request_id": q.ReqID, "groups": len(q.Groups), "value_tags": attrTagsIn(q), "document_bytes": len(q.Doc), "reply_head_hex": ob.ReplyHex[:mini(len(ob.ReplyHex), 64)], "event": ob.Event}
 			}
 			kinds := failingKinds(q)
+			if ob.HangUp {
+				// no reply was waited for: the event is what is judged (document-bearing print jobs; other operations
+				// give an event as well)
+				res.Key = "ipp-hangup|" + hex.EncodeToString(enc[:mini(len(enc), 64)]) + fmt.Sprint(len(enc))
+				res.Sample = map[string]interface{}{"mode": "ipp, client hangs up before the reply", "operation": q.Op, "event": ob.Event}
+				switch {
+				case ob.Fatal != "":
+					fail("handler-panicked|"+panicClass(ob.Fatal), fmt.Sprintf("well-formed IPP request made the handler panic (%s); attribute kinds present: %s", ob.Fatal, kinds))
+				case !ob.Event:
+					fail("no-event|client-hangs-up-before-the-reply", "a complete IPP request whose client closed the connection without reading the reply produced no ipp event")
+				case q.Op == 2 && ob.URI != q.URI:
+					fail("event-uri|"+kindsClass(q), fmt.Sprintf("print job event ipp.uri %q, encoded %q; attribute kinds present: %s", ob.URI, q.URI, kinds))
+				}
+				out = append(out, res)
+				continue
+			}
 			switch {
 			case ob.Fatal != "":
 				fail("handler-panicked|"+panicClass(ob.Fatal), fmt.Sprintf("well-formed IPP request made the handler panic (%s); attribute kinds present: %s", ob.Fatal, kinds))
